@@ -10,12 +10,13 @@ def leaf_harnesses():
     out = []
     for sel, flen, unw, extra in (("SEL_FMT", 64, 40, {}), ("SEL_BEXT", 64, 16, {}), ("SEL_CART", 64, 16, {}), ("SEL_PEAK", 64, 10, {"CH": 2}),
                                   ("SEL_LIST", 48, 8, {}), ("SEL_SMPL", 96, 20, {}), ("SEL_ACID", 64, 10, {})):
-        d = {sel: 1, "FLEN_MAX": flen, "MF_CAP": 4, "MF_MAXIO": 96, "MF_ABSTRACT": 1, "SNP_MAX": 40, "PSF_MEMSET_MAX": 64}
+        d = {sel: 1, "STUB_APPEND_SNPRINTF": 1, "FLEN_MAX": flen, "MF_CAP": 4, "MF_MAXIO": 96, "MF_ABSTRACT": 1, "SNP_MAX": 40, "PSF_MEMSET_MAX": 64}
         d.update(extra)
         d["FLEN_FIXED"] = flen
-        out.append(H("wavleaf." + sel[4:].lower(), "C03/wav_leaf.c", link=["common", "wavlike", "chunk", "strings", "broadcast", "cart", "id3", "audio_detect", "chanmap", "command"], stubs=["psf_log_printf", "psf_memset"],
-                     defines=d, unwind=unw, unwindset=["psf_fread.0:97", "psf_memset.0:65", "strlen.0:70", "psf_binheader_readf.1:40", "snprintf.0:41", "snprintf.1:41"],
-                     checks="mem", include_env=("log_stub", "memfile", "memset_model", "snprintf_model", "libm_model"), timeout=2400, tiers=("thorough",),
+        out.append(H("wavleaf." + sel[4:].lower(), "C03/wav_leaf.c", link=["common", "float32", "double64", "wavlike", "chunk", "strings", "broadcast", "cart", "id3", "audio_detect", "chanmap", "command"], stubs=["psf_log_printf", "psf_memset"] + (["append_snprintf"] if sel == "SEL_FMT" else []),
+                     defines=d, unwind=unw, unwindset=["psf_fread.0:97", "psf_memset.0:65", "strlen.0:70", "psf_binheader_readf.1:40", "snprintf.0:41", "snprintf.1:41", "vsnprintf.0:70", "vsnprintf.1:70"],
+                     checks="mem", include_env=("log_stub", "memfile", "memset_model", "snprintf_model", "libm_model"), timeout=600,
+                     tiers=("quick", "thorough") if sel in ("SEL_FMT", "SEL_BEXT", "SEL_CART", "SEL_PEAK", "SEL_ACID") else ("thorough",),
                      functions=["wavlike_read_fmt_chunk", "wavlike_read_bext_chunk", "wavlike_read_cart_chunk", "wavlike_read_peak_chunk",
                                 "wavlike_subchunk_parse", "exif_subchunk_parse", "wav_read_smpl_chunk", "wav_read_acid_chunk", "psf_binheader_readf", "header_read", "header_seek"],
                      bounds="chunk size any 32-bit value, file content nondeterministic, file length 0..%d" % flen))
